@@ -14,8 +14,11 @@ worker's real/effective/saved ids and its supplementary groups through a pipe.
 Three worker generations are observed: initial, respawned after SIGKILL,
 started by HUP.
 """
+import os as _os
+_TREE_UNDER_TEST = _os.environ.get("GVERIF_REPO") or _os.getcwd()   # the checkout under test (was the auditing agent's scratch worktree)
+
 import sys
-sys.path.insert(0, "/tmp/wa_C20")
+sys.path.insert(0, _TREE_UNDER_TEST)
 
 import json
 import os
@@ -28,7 +31,7 @@ import gunicorn
 from gunicorn.app.base import BaseApplication
 from gunicorn.arbiter import Arbiter
 
-assert gunicorn.__file__.startswith("/tmp/wa_C20/"), gunicorn.__file__
+assert gunicorn.__file__.startswith(_TREE_UNDER_TEST), gunicorn.__file__
 
 USER = "www-data"
 MASTER_GROUPS = [0, 6, 42]          # root, disk, shadow
